@@ -138,6 +138,7 @@ def drive (st : St) : List String → St × String
     | some op =>
       let (_, out) := step H codec (other st.pol) true st.u op
       (st, showU (other st.pol == .concurrent && isDigestRead op) out)
+  | ["diverge", _, _] => (st, "skip")   -- a one-sided member fault: judged by the oracle
   | ["snap"] => (st, if obs st.u.m0 == obs st.u.m1 then "equal" else "differ")
   | ["merge", k, e0, e1] =>
     match k.toNat?, parseEvents e0, parseEvents e1 with
